@@ -101,8 +101,13 @@ fn collision_requests() -> Vec<Value> {
     out
 }
 
-fn gen(args: &Args, emit: &mut dyn FnMut(Value)) {
+fn gen(args: &Args, emit0: &mut dyn FnMut(Value)) {
     let mut rng = Prng::new(args.seed);
+    // sub-second bounds that the model cannot tell apart are written alike (router_gen::fix_frac)
+    let emit = &mut |mut v: Value| {
+        fix_case(&mut v);
+        emit0(v)
+    };
     if args.tier == "thorough" {
         // exhaustive: every subset of the collision pool x 48 requests x 8 configurations
         // (ignore_header_case is irrelevant for the pool's lower-case values; 2^3 = the other three flags)
@@ -121,6 +126,12 @@ fn gen(args: &Args, emit: &mut dyn FnMut(Value)) {
         emit(json!({"cfg": cfg, "rules": rules, "reqs": reqs}));
     }
     for i in 0..args.n {
+        if i % 1000 == 998 {
+            // always-on: 150-180 rules, v4 / v6 / mapped-block ranges, v4-mapped clients
+            let (cfg, rules, reqs) = big_mapped_case(&mut rng);
+            emit(json!({"cfg": cfg, "rules": rules, "reqs": reqs}));
+            continue;
+        }
         if i % 5 == 4 {
             emit_focus_case(&mut rng, emit);
             continue;
